@@ -511,7 +511,7 @@ def real_sizes(data_size, k, n):
             "dec_share_size": d.share_size, "dec_num_chunks": d.num_chunks, "dec_chunk_size": d.chunk_size}
 
 
-def corr_params(ctx):
+def corr_params(ctx, all_terms, on_bad):
     name = "codec-params-vs-model"
     ctx.correspondence(name)
     thorough = ctx.tier == "thorough" or ctx.search
@@ -560,7 +560,7 @@ def corr_params(ctx):
         terms.append("Bool.eqb (crs_enc_params_ok %s %s) %s" % (T.N(k), T.N(n), T.boolean(bool(ok))))
 
     # callers: Encoder._got_all_encoding_parameters and DownloadNode._calculate_sizes
-    ncall = ctx.n(150, 1200)
+    ncall = ctx.n(100, 1200)
     for i in range(ncall):
         r = ctx.rng("caller-sizes", i)
         k = r.choice([1, 2, 3, 3, 7, 16, 100, 255, 256])
@@ -588,11 +588,10 @@ def corr_params(ctx):
             ctx.oracle_fail("uploader-downloader-block-size-differ", "file_size=%d segsize=%d k=%d: uploader tail block %d / block %d, downloader expects %d / %d" % (
                 fs, segsize, k, e._tail_codec.get_block_size(), e._codec.get_block_size(), sizes["tail_block_size"], sizes["block_size"]),
                 case={"file_size": fs, "segsize": segsize, "k": k, "n": n}, expected=e._tail_codec.get_block_size(), observed=sizes)
-    bad = ctx.coq_check(IMPORTS, terms, preamble=PREAMBLE, tag="c36params")
-    for ix in bad:
-        ctx.mismatch("codec-sizes-model-vs-impl", "Coq size arithmetic and the real set_params/_calculate_sizes differ for %r" % (cases[ix],),
-                     case={"sizes": list(cases[ix])}, correspondence=name)
-    ctx.trace(len(terms) - len(bad))
+    for t, c in zip(terms, cases):
+        all_terms.append(t)
+        on_bad.append(("codec-sizes-model-vs-impl", "Coq size arithmetic and the real set_params/_calculate_sizes differ for %r" % (c,),
+                       {"sizes": list(c)}, name))
 
 
 # ---------------------------------------------------------------------------------------------
@@ -601,7 +600,7 @@ def coq_pieces(pieces):
     return T.lst([T.bytes_(p) for p in pieces])
 
 
-def corr_wrapper(ctx):
+def corr_wrapper(ctx, all_terms, on_bad):
     name = "segment-wrapper-vs-model"
     ctx.correspondence(name)
     from allmydata.immutable.encode import Encoder
@@ -666,6 +665,14 @@ def corr_wrapper(ctx):
                 except AssertionError:
                     rejected = True
                     out = None
+                except Exception as ex:
+                    # not stopped by an assert/precondition of the wrappers: it reached zfec
+                    ctx.mismatch("wrapper-model-vs-impl:decode-malformed-reaches-zfec",
+                                 "blocks %r (k=%d n=%d) are rejected by the model's preconditions but the real _decode_blocks/CRSDecoder.decode "
+                                 "passed them to zfec (%s)" % ([j for j, _b in bad_picked], k, n, type(ex).__name__),
+                                 case={"k": k, "n": n, "ids": [j for j, _b in bad_picked], "data": seg.hex()}, expected="AssertionError",
+                                 observed=type(ex).__name__, correspondence=name)
+                    continue
                 ctx.case(None, kind="wrapper-decode-malformed")
                 # whatever zfec would do with it is outside the model: the model must reject before calling dec
                 terms.append("opt_bytes_eqb (decode_segment (fun _ _ _ => [[99]]) %s %s true %s %s) %s" % (
@@ -708,17 +715,23 @@ def corr_wrapper(ctx):
                 terms.append("pieces_eqb (mutable_pieces %s (crs_enc_share_size %s %s) %s) %s" % (
                     T.N(k), T.N(len(seg)), T.N(k), T.bytes_(crypt), coq_pieces(mblocks[:k])))
                 info.append(("mutable_pieces", k, n, None, crypt))
-    bad = ctx.coq_check(IMPORTS, terms, preamble=PREAMBLE, tag="c36wrap")
-    for ix in bad:
-        what = info[ix]
-        ctx.mismatch("wrapper-model-vs-impl:" + what[0], "Coq %s and the real caller differ (k=%d n=%d %r, %d bytes)" % (what[0], what[1], what[2], what[3], len(what[4])),
-                     case={"fn": what[0], "k": what[1], "n": what[2], "arg": repr(what[3]), "data": what[4].hex()}, correspondence=name)
-    ctx.trace(len(terms) - len(bad))
+    for t, what in zip(terms, info):
+        all_terms.append(t)
+        on_bad.append(("wrapper-model-vs-impl:" + what[0],
+                       "Coq %s and the real caller differ (k=%d n=%d %r, %d bytes)" % (what[0], what[1], what[2], what[3], len(what[4])),
+                       {"fn": what[0], "k": what[1], "n": what[2], "arg": repr(what[3]), "data": what[4].hex()}, name))
 
 
 def run(ctx):
     oracle_corpus(ctx)
     oracle_exhaustive(ctx)
     oracle_seeded(ctx)
-    corr_params(ctx)
-    corr_wrapper(ctx)
+    # both correspondences are evaluated by one round of coqc shards
+    terms, on_bad = [], []
+    corr_params(ctx, terms, on_bad)
+    corr_wrapper(ctx, terms, on_bad)
+    bad = ctx.coq_check(IMPORTS, terms, preamble=PREAMBLE, tag="c36model", shard=250)
+    for ix in bad:
+        kind, what, case, name = on_bad[ix]
+        ctx.mismatch(kind, what, case=case, correspondence=name)
+    ctx.trace(len(terms) - len(bad))
